@@ -17,7 +17,7 @@ HELD = "held"
 # runs: (family, mode, runner, n_quick, n_thorough, labels)
 PROPS = {
     "C01": dict(
-        runs=[("coll", "flat-nomerge", "flatrun", 320, 6000, 22), TREE + (160, 3000, 24)],
+        corpus=True, runs=[("coll", "flat-nomerge", "flatrun", 320, 6000, 22), TREE + (160, 3000, 24)],
         corr=STRUCT | READS, corr_held=True,
         spec={"spec:gets", "spec:iter", "tspec:reads"}, spec_held=True,
         rule="generated label sequences (batches of Set/Del with unique keys woven with merger ingest/swap/hand-over, "
@@ -37,7 +37,7 @@ PROPS = {
         technique="Coq proof (snapshots are values; cache-soundness invariant) + re-read of open handles after every label",
     ),
     "C08": dict(
-        runs=[("coll", "flat", "flatrun", 320, 6000, 24), TREE + (160, 3000, 24)],
+        corpus=True, runs=[("coll", "flat", "flatrun", 320, 6000, 24), TREE + (160, 3000, 24)],
         corr=STRUCT | READS | {"model:cget", "tmodel:cget"}, corr_held=True,
         spec={"spec:gets", "spec:iter", "spec:cget", "tspec:reads", "tspec:cget"}, spec_held=True,
         rule="as C01 with an order-sensitive operator (existing ++ ':' ++ operand) and Merge-heavy batches; "
@@ -45,7 +45,7 @@ PROPS = {
         technique="Coq proof (merge_range satisfies merged_ok for an arbitrary operator) + lock-step correspondence",
     ),
     "C10": dict(
-        runs=[("coll", "flat", "flatrun", 320, 6000, 24), TREE + (160, 3000, 24),
+        corpus=True, runs=[("coll", "flat", "flatrun", 320, 6000, 24), TREE + (160, 3000, 24),
               ("coll", "nilmerge", "flatrun", 48, 800, 22), ("conc", "", "concrun", 100, 2000, 0)],
         corr=STRUCT | READS | {"model:cget", "tmodel:cget"}, corr_held=False,
         spec={"spec:cget", "spec:gets", "spec:iter", "tspec:reads", "tspec:cget", "spec:copied-value-not-intact",
@@ -162,7 +162,7 @@ PROPS = {
     ),
     "C05": dict(
         runs=[("crash", "", "crashrun", 400, 20000, 0)],
-        corr={"model:footer-choice", "model:open-result", "driver-error", "harness-error"}, corr_held=False,
+        corr={"model:footer-choice", "model:open-result", "model:write-barrier", "driver-error", "harness-error"}, corr_held=False,
         spec={"spec:open-failed", "spec:open-panic", "spec:not-a-prefix", "spec:lost-synced-round", "spec:first-round-unopenable"},
         spec_held=False,
         rule="workloads of 2-6 persisted rounds (append persists, leveled partial compactions, forced full compactions, "
@@ -180,7 +180,7 @@ PROPS = {
         runs=[("codec", "", "codecrun", 200, 3000, 0), ("coll", "flat", "flatrun", 160, 3000, 20),
               ("crash", "", "crashrun", 160, 6000, 0)],
         corr={"model:codec-word", "model:guard", "model:load-segment", "model:segment-layout", "model:roundtrip",
-              "model:footer-choice", "model:open-result", "driver-error", "harness-error"} | STRUCT | READS, corr_held=False,
+              "model:footer-choice", "model:open-result", "model:write-barrier", "driver-error", "harness-error"} | STRUCT | READS, corr_held=False,
         spec={"spec:limits", "spec:gets", "spec:iter", "spec:open-failed", "spec:open-panic", "spec:not-a-prefix",
               "spec:lost-synced-round"}, spec_held=False,
         rule="function level: 400 (op,keyLen,valLen) words per run at boundary lengths 0,1,2^16,2^24-1,2^24,2^24+1,2^28-1,"
@@ -252,7 +252,7 @@ PROPS = {
     ),
     "C17": dict(runs=[], corr=set(), corr_held=False, spec=set(), spec_held=False, rule="", technique=""),
     "C11": dict(
-        runs=[TREE + (360, 6000, 28)],
+        corpus=True, runs=[TREE + (360, 6000, 28)],
         corr=STRUCT | READS | {"tmodel:cget"}, corr_held=True,
         spec={"tspec:reads", "tspec:cget", "tspec:reopen-prefix"}, spec_held=True,
         rule="histories over child names c1, c2 and nested c1/d1, c2/d1: create, write, delete, recreate, child-only "
@@ -505,6 +505,15 @@ def _run(pid, spec, tier, seed, replay, workdir, known, t0):
     else:
         if replay:
             return replay_case(pid, spec, replay, workdir, known, problems)
+        # the corpus runs first: scripted witnesses of earlier findings and of situations that proofs
+        # or seeded changes singled out (corpus/witness/*.script), through the gated implementation
+        import glob as _glob
+        for si, sf in enumerate(sorted(_glob.glob(os.path.join(os.path.dirname(WORK), "corpus", "witness", "*.script")))
+                                if spec.get("corpus") else []):
+            cases, h, he = run_family("coll", "script", 1, 0, seed, "treerun", os.path.join(workdir, "corpus%d" % si),
+                                      extra=["-replay", sf], jobs=1)
+            all_cases += cases
+            herrs += he
         for (family, mode, runner, nq, nt, labels) in spec["runs"]:
             n = nq if tier == "quick" else nt
             cases, h, he = run_family(family, mode, n, labels, seed, runner, workdir)
